@@ -6,7 +6,10 @@
    3. a transaction that is not pending stays not pending under every coordinator call except a
       begin of the same id, and every call aimed at it fails, and the timeout sweeper never
       reports it;
-   4. restart from ANY byte prefix of the log = recovery of the records completely inside it. *)
+   4. restart from ANY byte prefix of the log = recovery of the records completely inside it;
+   5. the live link: what the live coordinator holds for a transaction (participants, phase,
+      votes) is what its log says, an invariant of every call, so a Prepared / Committing
+      transaction comes back with exactly the votes the live coordinator held. *)
 From NV.Common Require Import Base WalFormat.
 From NV.C13 Require Import Model.
 Open Scope N_scope.
@@ -383,4 +386,367 @@ Proof.
   cbn [fst file]. exists (es ++ w). rewrite E. symmetry. apply log_bytes_app.
 Qed.
 End D.
+
+(* ======================================================================== *)
+(* ------------------------------------------------------------ the live coordinator and its log *)
+Notation scanL es := (fold_left (scan_step true) es sc0).
+
+Lemma aset_absent_app {V} (l : list (N * V)) k v : aget l k = None -> aset l k v = l ++ [(k, v)].
+Proof.
+  induction l as [|[k0 v0] l IH]; cbn; intros H; [reflexivity|].
+  destruct (N.eqb_spec k0 k); [discriminate|]. f_equal. apply IH. exact H.
+Qed.
+Lemma aget_some_in {V} (l : list (N * V)) k v : aget l k = Some v -> In k (map fst l).
+Proof.
+  induction l as [|[k0 v0] l IH]; cbn; intros H; [discriminate|].
+  destruct (N.eqb_spec k0 k) as [->|]; [left; reflexivity|right; apply IH; exact H].
+Qed.
+Lemma existsb_key {V} (l : list (N * V)) k : existsb (fun sv => N.eqb (fst sv) k) l = true <-> In k (map fst l).
+Proof.
+  split.
+  - intros H. apply existsb_exists in H as ([a b] & Hin & E). cbn in E. apply N.eqb_eq in E. subst.
+    apply in_map_iff. exists (k, b). split; [reflexivity|exact Hin].
+  - intros H. apply in_map_iff in H as ([a b] & E & Hin). cbn in E. subst. apply existsb_exists.
+    exists (k, b). split; [exact Hin|apply N.eqb_refl].
+Qed.
+Lemma restore_nodup fw (vs : list (N * vote)) : NoDup (map fst vs) -> restore_votes fw vs = vs.
+Proof.
+  unfold restore_votes.
+  assert (G: forall (vs acc : list (N * vote)), NoDup (map fst (acc ++ vs)) ->
+             fold_left (fun m sv => if fw then match aget m (fst sv) with Some _ => m | None => aset m (fst sv) (snd sv) end
+                                     else aset m (fst sv) (snd sv)) vs acc = acc ++ vs).
+  { induction vs0 as [|[s v] vs0 IH]; intros acc H; cbn [fold_left]; [rewrite app_nil_r; reflexivity|].
+    assert (Hn: aget acc s = None).
+    { apply aget_notin. rewrite map_app in H. cbn in H. apply NoDup_remove_2 in H.
+      intros Hin. apply H. apply in_or_app. left. exact Hin. }
+    cbn [fst snd]. rewrite Hn. rewrite (aset_absent_app acc s v Hn).
+    assert (E: (if fw then acc ++ [(s, v)] else acc ++ [(s, v)]) = acc ++ [(s, v)]) by (destruct fw; reflexivity).
+    rewrite E. rewrite IH; [rewrite <- app_assoc; reflexivity|]. rewrite <- app_assoc. exact H. }
+  intros H. apply (G vs []). exact H.
+Qed.
+
+Definition tx_of (e : tentry) : N :=
+  match e with
+  | TBegin t _ | TVote t _ _ | TPhase t _ _ | TComplete t _ | TLockRelease t _ | TAllReleased t
+  | TAbortIntent t _ _ => t
+  end.
+Lemma scan_other lr s e tx : tx_of e <> tx -> aget (in_prog (scan_step lr s e)) tx = aget (in_prog s) tx.
+Proof.
+  intros H. destruct e; cbn [scan_step tx_of] in *; try reflexivity.
+  - cbn [in_prog]. rewrite aget_aset. destruct (N.eqb_spec tx0 tx); [contradiction|reflexivity].
+  - destruct (aget (in_prog s) tx0) as [[[ps vs] ph]|]; [|reflexivity].
+    destruct (lr && _); [reflexivity|]. cbn [in_prog]. rewrite aget_aset.
+    destruct (N.eqb_spec tx0 tx); [contradiction|reflexivity].
+  - destruct (aget (in_prog s) tx0) as [[[ps vs] ph]|]; [|reflexivity].
+    cbn [in_prog]. rewrite aget_aset. destruct (N.eqb_spec tx0 tx); [contradiction|reflexivity].
+  - cbn [in_prog]. rewrite aget_adel. destruct (N.eqb_spec tx0 tx); [contradiction|reflexivity].
+Qed.
+Lemma scan_other_all lr es : forall s tx, Forall (fun e => tx_of e <> tx) es ->
+  aget (in_prog (fold_left (scan_step lr) es s)) tx = aget (in_prog s) tx.
+Proof.
+  induction es as [|e es IH]; intros s tx H; cbn [fold_left]; [reflexivity|].
+  inversion H; subst. rewrite IH by assumption. apply scan_other. assumption.
+Qed.
+
+(* what the live coordinator holds is what its log says (for everything that can come back) *)
+Definition LInv (c : coord) (es : list tentry) : Prop :=
+  NoDupK (pending c) /\
+  forall tx t, aget (pending c) tx = Some t ->
+    phase t = ABORTING \/
+    (aget (in_prog (scanL es)) tx = Some (parts t, votes t, phase t) /\ NoDup (map fst (votes t))).
+
+Lemma LInv_init : LInv co0 [].
+Proof. split; [constructor|]. intros tx t H. discriminate. Qed.
+
+Definition fresh_begin (c : coord) (es : list tentry) (s : step_in) : Prop :=
+  match s with Begin tx _ => aget (pending c) tx = None /\ aget (in_prog (scanL es)) tx = None | _ => True end.
+
+Lemma aget_filter_some {V} (f : N * V -> bool) (l : list (N * V)) k v : NoDupK l ->
+  aget (filter f l) k = Some v -> aget l k = Some v.
+Proof.
+  unfold NoDupK. induction l as [|[k0 v0] l IH]; cbn; intros ND H; [discriminate|].
+  inversion ND as [|? ? Hn Hd]; subst.
+  destruct (f (k0, v0)) eqn:Ef; cbn in H.
+  - destruct (N.eqb_spec k0 k) as [->|]; [exact H|apply IH; assumption].
+  - destruct (N.eqb_spec k0 k) as [->|]; [|apply IH; assumption].
+    exfalso. apply Hn. apply (aget_some_in (filter f l) k v) in H.
+    apply in_map_iff in H as ([a b] & E & Hin). cbn in E. subst. apply filter_In in Hin as [Hin _].
+    apply in_map_iff. exists (k, b). split; [reflexivity|exact Hin].
+Qed.
+Lemma NoDupK_filter {V} (f : N * V -> bool) (l : list (N * V)) : NoDupK l -> NoDupK (filter f l).
+Proof.
+  unfold NoDupK. induction l as [|[k0 v0] l IH]; cbn; intros H; [constructor|].
+  inversion H as [|? ? Hn Hd]; subst. destruct (f (k0, v0)); cbn; [|apply IH; exact Hd].
+  constructor; [|apply IH; exact Hd]. intros Hin. apply Hn.
+  apply in_map_iff in Hin as ([a b] & E & Hin). cbn in E. subst. apply filter_In in Hin as [Hin _].
+  apply in_map_iff. exists (k0, b). split; [reflexivity|exact Hin].
+Qed.
+
+(* ======================================================================== *)
+Definition claim (es : list tentry) (tx : N) (t : txrec) : Prop :=
+  phase t = ABORTING \/
+  (aget (in_prog (scanL es)) tx = Some (parts t, votes t, phase t) /\ NoDup (map fst (votes t))).
+
+Lemma transfer c es c' w tx0 : LInv c es ->
+  Forall (fun e => tx_of e = tx0) w ->
+  (forall tx', tx' <> tx0 -> aget (pending c') tx' = aget (pending c) tx') ->
+  NoDupK (pending c') ->
+  (forall t', aget (pending c') tx0 = Some t' -> claim (es ++ w) tx0 t') ->
+  LInv c' (es ++ w).
+Proof.
+  intros [ND HI] Hw Hoth ND' H0. split; [exact ND'|].
+  intros tx t Ht. destruct (N.eq_dec tx tx0) as [->|Hne]; [apply H0; exact Ht|].
+  rewrite Hoth in Ht by exact Hne. destruct (HI tx t Ht) as [Ha|[Hin Hnd]]; [left; exact Ha|right].
+  split; [|exact Hnd]. rewrite fold_left_app. rewrite scan_other_all; [exact Hin|].
+  apply Forall_forall. intros e He. rewrite Forall_forall in Hw. rewrite (Hw e He). congruence.
+Qed.
+
+Lemma aget_aset_other {V} (l : list (N * V)) k v k' : k' <> k -> aget (aset l k v) k' = aget l k'.
+Proof. intros H. rewrite aget_aset. destruct (N.eqb_spec k k'); [congruence|reflexivity]. Qed.
+Lemma aget_adel_other {V} (l : list (N * V)) k k' : k' <> k -> aget (adel l k) k' = aget l k'.
+Proof. intros H. rewrite aget_adel. destruct (N.eqb_spec k k'); [congruence|reflexivity]. Qed.
+
+Lemma NoDup_app_single {A} (l : list A) x : NoDup l -> ~ In x l -> NoDup (l ++ [x]).
+Proof.
+  induction l as [|y l IH]; intros H Hx; cbn; [constructor; [intros []|constructor]|].
+  inversion H; subst. constructor.
+  - intros Hin. apply in_app_or in Hin as [Hin|[<-|[]]]; [contradiction|]. apply Hx. left. reflexivity.
+  - apply IH; [assumption|]. intros Hin. apply Hx. right. exact Hin.
+Qed.
+
+Lemma vote_rejected c es tx shard v : LInv c es ->
+  (forall t, aget (pending c) tx = Some t -> claim (es ++ [TVote tx shard v]) tx t) ->
+  LInv c (es ++ [TVote tx shard v]).
+Proof.
+  intros HL Hc. apply (transfer c es c _ tx HL).
+  - repeat constructor.
+  - intros; reflexivity.
+  - destruct HL; assumption.
+  - exact Hc.
+Qed.
+
+Lemma LInv_step now c es s c' w out : LInv c es -> fresh_begin c es s -> step now c s = (c', w, out) ->
+  LInv c' (es ++ w).
+Proof.
+  intros HL Hfr H. pose proof HL as [ND HI]. destruct s; cbn [step] in H.
+  - (* Begin *)
+    inversion H; subst. destruct Hfr as [Hp Hs].
+    apply (transfer c es _ _ tx HL); cbn [pending].
+    + repeat constructor.
+    + intros tx' Hne. apply aget_aset_other. exact Hne.
+    + apply NoDupK_aset. exact ND.
+    + intros t' Ht. rewrite aget_aset, N.eqb_refl in Ht. inversion Ht; subst t'. right.
+      cbn [parts votes phase]. split; [|constructor].
+      rewrite fold_left_app. cbn [fold_left scan_step in_prog]. rewrite aget_aset, N.eqb_refl. reflexivity.
+  - (* Lock *) inversion H; subst. rewrite app_nil_r. split; [exact ND|exact HI].
+  - (* Vote *)
+    set (S0 := scanL es).
+    destruct (aget (pending c) tx) as [t|] eqn:Et.
+    2:{ inversion H; subst. apply vote_rejected; [exact HL|]. intros t' Ht. congruence. }
+    destruct (negb (phase t =? PREPARING)) eqn:Eph.
+    { (* rejected: wrong phase *)
+      inversion H; subst. apply vote_rejected; [exact HL|].
+      intros t' Ht. rewrite Et in Ht. inversion Ht; subst t'.
+      destruct (HI tx t Et) as [Ha|[Hin Hnd]]; [left; exact Ha|right]. split; [|exact Hnd].
+      rewrite fold_left_app. cbn [fold_left scan_step]. fold S0. fold S0 in Hin. rewrite Hin.
+      assert (Hp: (phase t =? PREPARING) = false) by (destruct (phase t =? PREPARING); [discriminate|reflexivity]).
+      rewrite Hp. cbn [andb negb]. exact Hin. }
+    assert (Hp: phase t = PREPARING) by (apply N.eqb_eq; destruct (phase t =? PREPARING); [reflexivity|discriminate]).
+    assert (Hright: aget (in_prog S0) tx = Some (parts t, votes t, phase t) /\ NoDup (map fst (votes t))).
+    { destruct (HI tx t Et) as [Ha|Hr]; [|exact Hr]. rewrite Hp in Ha. discriminate. }
+    destruct Hright as [Hin Hnd].
+    destruct (aget (votes t) shard) as [v0|] eqn:Ev.
+    { (* rejected: duplicate *)
+      inversion H; subst. apply vote_rejected; [exact HL|].
+      intros t' Ht. rewrite Et in Ht. inversion Ht; subst t'. right. split; [|exact Hnd].
+      rewrite fold_left_app. cbn [fold_left scan_step]. fold S0. rewrite Hin.
+      assert (Hex: existsb (fun sv => fst sv =? shard) (votes t) = true)
+        by (apply existsb_key; eapply aget_some_in; exact Ev).
+      rewrite Hex. rewrite Hp, N.eqb_refl. cbn [andb negb]. rewrite Hp in Hin. exact Hin. }
+    (* accepted *)
+    assert (Hex: existsb (fun sv => fst sv =? shard) (votes t) = false).
+    { destruct (existsb (fun sv => fst sv =? shard) (votes t)) eqn:E; [|reflexivity].
+      apply existsb_key in E. apply (aget_none_notin _ _ Ev) in E. contradiction. }
+    assert (Hv: aset (votes t) shard v = votes t ++ [(shard, v)]) by (apply aset_absent_app; exact Ev).
+    assert (Hnd': NoDup (map fst (votes t ++ [(shard, v)]))).
+    { rewrite map_app. cbn. apply NoDup_app_single; [exact Hnd|]. apply aget_none_notin. exact Ev. }
+    assert (Hscan1: in_prog (scan_step true S0 (TVote tx shard v)) =
+                    aset (in_prog S0) tx (parts t, votes t ++ [(shard, v)], phase t)).
+    { cbn [scan_step]. rewrite Hin, Hex, Hp, N.eqb_refl. cbn [andb negb in_prog]. reflexivity. }
+    set (t1 := Tx (parts t) (phase t) (aset (votes t) shard v) (started t) (timeout t)) in *.
+    destruct (all_voted t1) eqn:Eav; [destruct (all_yes t1) eqn:Eay|]; inversion H; subst c' w out; clear H.
+    + (* Prepared *)
+      apply (transfer c es _ _ tx HL); cbn [pending].
+      * repeat constructor.
+      * intros tx' Hne. apply aget_aset_other. exact Hne.
+      * apply NoDupK_aset. exact ND.
+      * intros t' Ht. rewrite aget_aset, N.eqb_refl in Ht. inversion Ht; subst t'. right.
+        cbn [parts votes phase t1]. rewrite Hv. split; [|exact Hnd'].
+        rewrite fold_left_app. cbn [fold_left]. fold S0.
+        set (X := scan_step true S0 (TVote tx shard v)) in *.
+        cbn [scan_step]. rewrite Hscan1. rewrite aget_aset, N.eqb_refl. cbn [in_prog].
+        rewrite aget_aset, N.eqb_refl. reflexivity.
+    + (* Aborting in memory only *)
+      apply (transfer c es _ _ tx HL); cbn [pending].
+      * repeat constructor.
+      * intros tx' Hne. apply aget_aset_other. exact Hne.
+      * apply NoDupK_aset. exact ND.
+      * intros t' Ht. rewrite aget_aset, N.eqb_refl in Ht. inversion Ht; subst t'. left. reflexivity.
+    + apply (transfer c es _ _ tx HL); cbn [pending].
+      * repeat constructor.
+      * intros tx' Hne. apply aget_aset_other. exact Hne.
+      * apply NoDupK_aset. exact ND.
+      * intros t' Ht. rewrite aget_aset, N.eqb_refl in Ht. inversion Ht; subst t'. right.
+        cbn [parts votes phase t1]. rewrite Hv. split; [|exact Hnd'].
+        rewrite fold_left_app. cbn [fold_left]. fold S0. rewrite Hscan1. rewrite aget_aset, N.eqb_refl. reflexivity.
+  - (* Commit *)
+    destruct (aget (pending c) tx) as [t|] eqn:Et;
+      [|inversion H; subst; rewrite app_nil_r; split; [exact ND|exact HI]].
+    destruct (negb (phase t =? PREPARED)); [inversion H; subst; rewrite app_nil_r; split; [exact ND|exact HI]|].
+    destruct (negb (same_set order (yes_handles t))); [inversion H; subst; rewrite app_nil_r; split; [exact ND|exact HI]|].
+    inversion H; subst. apply (transfer c es _ _ tx HL); cbn [pending].
+    + repeat constructor. apply Forall_app. split; [|repeat constructor].
+      apply Forall_forall. intros e He. apply in_map_iff in He as (h & <- & _). reflexivity.
+    + intros tx' Hne. apply aget_adel_other. exact Hne.
+    + apply NoDupK_adel. exact ND.
+    + intros t' Ht. rewrite aget_adel, N.eqb_refl in Ht. discriminate.
+  - (* Abort *)
+    destruct (aget (pending c) tx) as [t|] eqn:Et;
+      [|inversion H; subst; rewrite app_nil_r; split; [exact ND|exact HI]].
+    inversion H; subst. apply (transfer c es _ _ tx HL); cbn [pending].
+    + repeat constructor.
+    + intros tx' Hne. apply aget_adel_other. exact Hne.
+    + apply NoDupK_adel. exact ND.
+    + intros t' Ht. rewrite aget_adel, N.eqb_refl in Ht. discriminate.
+  - (* CompleteCommit *)
+    destruct (aget (pending c) tx) as [t|] eqn:Et;
+      [|inversion H; subst; rewrite app_nil_r; split; [exact ND|exact HI]].
+    destruct (negb (phase t =? COMMITTING)); inversion H; subst; rewrite app_nil_r; [split; [exact ND|exact HI]|].
+    split; cbn [pending]; [apply NoDupK_adel; exact ND|].
+    intros tx' t' Ht. rewrite aget_adel in Ht. destruct (tx =? tx'); [discriminate|]. apply HI. exact Ht.
+  - destruct (aget (pending c) tx) as [t|] eqn:Et;
+      [|inversion H; subst; rewrite app_nil_r; split; [exact ND|exact HI]].
+    destruct (negb (phase t =? ABORTING)); inversion H; subst; rewrite app_nil_r; [split; [exact ND|exact HI]|].
+    split; cbn [pending]; [apply NoDupK_adel; exact ND|].
+    intros tx' t' Ht. rewrite aget_adel in Ht. destruct (tx =? tx'); [discriminate|]. apply HI. exact Ht.
+  - (* Timeouts *)
+    inversion H; subst. rewrite app_nil_r. split; cbn [pending]; [apply NoDupK_filter; exact ND|].
+    intros tx' t' Ht. apply HI. eapply aget_filter_some; [exact ND|exact Ht].
+Qed.
+
+(* ======================================================================== *)
+(* the scan (with the live vote rule) never records two votes of one shard *)
+Definition votes_nodup (s : scan) : Prop :=
+  forall tx ps vs ph, aget (in_prog s) tx = Some (ps, vs, ph) -> NoDup (map fst vs).
+Lemma votes_nodup_step s e : votes_nodup s -> votes_nodup (scan_step true s e).
+Proof.
+  intros H tx ps vs ph. destruct e; cbn [scan_step]; try apply H.
+  - cbn [in_prog]. rewrite aget_aset. destruct (N.eqb_spec tx0 tx) as [->|]; [|apply H].
+    intros E. inversion E; subst. constructor.
+  - destruct (aget (in_prog s) tx0) as [[[ps0 vs0] ph0]|] eqn:E0; [|apply H].
+    destruct (true && negb ((ph0 =? PREPARING) && negb (existsb (fun sv => fst sv =? shard) vs0))) eqn:Er; [apply H|].
+    cbn [in_prog]. rewrite aget_aset. destruct (N.eqb_spec tx0 tx) as [->|]; [|apply H].
+    intros E. inversion E; subst. rewrite map_app. cbn.
+    apply NoDup_app_single; [apply (H tx ps vs0 ph E0)|].
+    cbn [andb] in Er. apply negb_false_iff in Er. apply andb_true_iff in Er as [_ Er].
+    apply negb_true_iff in Er. intros Hin. apply existsb_key in Hin. congruence.
+  - destruct (aget (in_prog s) tx0) as [[[ps0 vs0] ph0]|] eqn:E0; [|apply H].
+    cbn [in_prog]. rewrite aget_aset. destruct (N.eqb_spec tx0 tx) as [->|]; [|apply H].
+    intros E. inversion E; subst. apply (H tx ps vs ph0 E0).
+  - cbn [in_prog]. rewrite aget_adel. destruct (tx0 =? tx); [discriminate|apply H].
+Qed.
+Lemma votes_nodup_all es : votes_nodup (scanL es).
+Proof.
+  assert (G: forall es s, votes_nodup s -> votes_nodup (fold_left (scan_step true) es s)).
+  { induction es0 as [|e es0 IH]; intros s H; cbn [fold_left]; [exact H|]. apply IH, votes_nodup_step, H. }
+  apply G. intros tx ps vs ph E. discriminate.
+Qed.
+
+(* a record that cannot change what the log says about tx once it has left the Preparing phase *)
+Definition quiet (tx : N) (e : tentry) : bool :=
+  match e with TVote _ _ _ => true | _ => negb (tx_of e =? tx) end.
+
+Lemma scan_quiet s e tx ps vs ph : aget (in_prog s) tx = Some (ps, vs, ph) -> ph <> PREPARING ->
+  quiet tx e = true -> aget (in_prog (scan_step true s e)) tx = Some (ps, vs, ph).
+Proof.
+  intros E Hph Hq. destruct e; cbn [quiet tx_of] in Hq;
+    try (rewrite scan_other; [exact E|apply N.eqb_neq; apply negb_true_iff; exact Hq]).
+  (* TVote *)
+  destruct (N.eq_dec tx0 tx) as [->|Hne]; [|rewrite scan_other; [exact E|exact Hne]].
+  cbn [scan_step]. rewrite E. destruct (N.eqb_spec ph PREPARING); [contradiction|]. cbn [andb negb]. exact E.
+Qed.
+Lemma scan_quiet_all extra : forall s tx ps vs ph, aget (in_prog s) tx = Some (ps, vs, ph) -> ph <> PREPARING ->
+  forallb (quiet tx) extra = true -> aget (in_prog (fold_left (scan_step true) extra s)) tx = Some (ps, vs, ph).
+Proof.
+  induction extra as [|e extra IH]; intros s tx ps vs ph E Hph Hq; cbn [fold_left]; [exact E|].
+  cbn [forallb] in Hq. apply andb_true_iff in Hq as [H1 H2].
+  apply IH; [apply scan_quiet; assumption|exact Hph|exact H2].
+Qed.
+
+(* Clause 2 with the LIVE votes: a transaction the live coordinator holds as Prepared (or
+   Committing) comes back, after a crash that lets the records es survive plus any later records
+   that are not about it, with exactly the participants, phase and votes the live coordinator held *)
+Theorem prepared_comes_back_with_live_votes : forall fw now c es tx t extra,
+  LInv c es -> aget (pending c) tx = Some t -> phase t = PREPARED \/ phase t = COMMITTING ->
+  forallb (quiet tx) extra = true ->
+  aget (pending (fst (recover_entries true fw now (es ++ extra)))) tx =
+    Some (Tx (parts t) (phase t) (votes t) now 5000).
+Proof.
+  intros fw now c es tx t extra [ND HI] Ht Hph Hq.
+  destruct (HI tx t Ht) as [Ha|[Hin Hnd]].
+  { destruct Hph as [E|E]; rewrite E in Ha; discriminate. }
+  rewrite recover_pending. rewrite fold_left_app.
+  assert (Hne: phase t <> PREPARING) by (destruct Hph as [E|E]; rewrite E; discriminate).
+  rewrite (scan_quiet_all extra _ tx _ _ _ Hin Hne Hq).
+  assert (Hr: restorable (phase t) = true) by (destruct Hph as [E|E]; rewrite E; reflexivity).
+  rewrite Hr, restore_nodup by exact Hnd. reflexivity.
+Qed.
+
+(* the invariant holds initially, is kept by every call (transaction ids are fresh), and is
+   re-established by every restart *)
+Lemma NoDupK_filtermap {V W} (P : V -> bool) (g : N -> V -> W) (l : list (N * V)) : NoDupK l ->
+  NoDupK (flat_map (fun p => if P (snd p) then [(fst p, g (fst p) (snd p))] else []) l).
+Proof.
+  unfold NoDupK. induction l as [|[k0 v0] l IH]; cbn [flat_map map fst snd]; intros H; [constructor|].
+  inversion H as [|? ? Hn Hd]; subst. destruct (P v0); cbn [app map fst]; [|apply IH; exact Hd].
+  constructor; [|apply IH; exact Hd]. intros Hin. apply Hn.
+  eapply (in_keys_filtermap (fun p => if P (snd p) then [(fst p, g (fst p) (snd p))] else [])); [|exact Hin].
+  intros p q Hq. destruct (P (snd p)); [|destruct Hq]. destruct Hq as [<-|[]]. reflexivity.
+Qed.
+Lemma LInv_restart fw now es : LInv (fst (recover_entries true fw now es)) es.
+Proof.
+  split.
+  - unfold recover_entries. cbn [fst pending].
+    set (s := scanL es).
+    assert (ND: NoDupK (in_prog s)) by (apply scan_nodup_all; constructor).
+    pose proof (NoDupK_filtermap (fun v : list N * list (N * vote) * N => restorable (snd v))
+                  (fun (_ : N) (v : list N * list (N * vote) * N) =>
+                     Tx (fst (fst v)) (snd v) (restore_votes fw (snd (fst v))) now 5000) (in_prog s) ND) as H.
+    match goal with |- NoDupK ?l => match type of H with NoDupK ?l' => replace l with l'; [exact H|] end end.
+    apply flat_map_ext. intros [k [[ps vs] ph]]. reflexivity.
+  - intros tx t Ht. rewrite recover_pending in Ht.
+    destruct (aget (in_prog (scanL es)) tx) as [[[ps vs] ph]|] eqn:E; [|discriminate].
+    destruct (restorable ph); [|discriminate]. inversion Ht; subst t. cbn [parts votes phase].
+    pose proof (votes_nodup_all es tx ps vs ph E) as Hnd.
+    right. rewrite restore_nodup by exact Hnd. split; [reflexivity|exact Hnd].
+Qed.
+
+(* ======================================================================== *)
+(* records and final state of a sequence of calls (clock fixed at `now`) *)
+Fixpoint run_steps (now : N) (c : coord) (ss : list step_in) : coord * list tentry :=
+  match ss with
+  | [] => (c, [])
+  | s :: r => let '(c', w, _) := step now c s in
+              let '(c'', w') := run_steps now c' r in (c'', w ++ w')
+  end.
+
+(* F-C13-latevote, the behaviour BEFORE the fixes (votes replayed without the live rule, last
+   one wins): the live coordinator holds Yes(h0) for shard 0, the recovered one holds No *)
+Theorem latevote_without_fix_refuted :
+  let ss := [Begin 0 [0; 1]; Vote 0 0 (VYes 0); Vote 0 1 (VYes 1); Vote 0 0 VNo] in
+  let '(c, es) := run_steps 1000 co0 ss in
+  exists t t', aget (pending c) 0 = Some t /\ phase t = PREPARED /\
+    aget (pending (fst (recover_entries false false 2000 es))) 0 = Some t' /\
+    votes t = [(0, VYes 0); (1, VYes 1)] /\ votes t' = [(0, VNo); (1, VYes 1)].
+Proof. vm_compute. eexists. eexists. repeat split. Qed.
 
